@@ -99,11 +99,11 @@ spec fn block_lookups(key: MerkleHash, bytes: Seq<u8>, p0: int, cas_index: u32, 
         },
 //@ loop 1
         invariant
-            byte_pos0 + 48 * cas_metadata.num_entries <= usize::MAX,
+            /*@AUX*/ byte_pos0 + 48 * cas_metadata.num_entries <= usize::MAX,
             byte_pos == byte_pos0 + 48 * chunk_index,
             reader.bytes@ == rb0, reader.pos@ == p0 + 48 * chunk_index,
-            writer.bytes@ == wb0 + out_entries(hmac_key, rb0, p0, chunk_index as int),
-            chunk_lookup@ == l0 + (if include_chunk_lookup_table { block_lookups(hmac_key, rb0, p0, cas_index, chunk_index as int) } else { Seq::empty() }),
+            /*@C18*/ writer.bytes@ == wb0 + out_entries(hmac_key, rb0, p0, chunk_index as int),
+            /*@C18*/ chunk_lookup@ == l0 + (if include_chunk_lookup_table { block_lookups(hmac_key, rb0, p0, cas_index, chunk_index as int) } else { Seq::empty() }),
 //@ body-start
     let ghost byte_pos0 = byte_pos as int; let ghost rb0 = reader.bytes@; let ghost p0 = reader.pos@; let ghost wb0 = writer.bytes@; let ghost l0 = chunk_lookup@;
     proof {
